@@ -199,6 +199,41 @@ def run(ctx: Ctx) -> int:
         ok = any(call_name(c) == "json.dumps" for c in calls_in(fn))
         ctx.oblige("C01.a", ok, fn, f"{name} writes with json.dumps (all strings quoted)" if ok else f"{name} no longer uses json.dumps", fn=fn)
 
+    # json text must be readable by the yaml loader too (format=json under parser_mode=yaml): with ensure_ascii
+    # on, json.dumps writes characters outside the BMP as surrogate-pair escapes, which a YAML reader rejects
+    djk = None
+    for s_ in ld.tree.body:
+        if isinstance(s_, ast.Assign) and isinstance(s_.targets[0], ast.Name) and s_.targets[0].id == "dump_json_kwargs" and isinstance(s_.value, ast.Dict):
+            djk = {const_str(k): v for k, v in zip(s_.value.keys, s_.value.values)}
+    for name in ("json_compact_dump", "json_indented_dump"):
+        fn = ctx.func(f"_loaders_dumpers:{name}")
+        for c in [c for c in calls_in(fn) if call_name(c) == "json.dumps"]:
+            ea = get_kwarg(c, "ensure_ascii")
+            via_table = any(k.arg is None and dotted(k.value) == "dump_json_kwargs" for k in c.keywords)
+            ok = (ea is not None and isinstance(ea, ast.Constant) and ea.value is False) or (via_table and djk is not None and isinstance(djk.get("ensure_ascii"), ast.Constant) and djk["ensure_ascii"].value is False)
+            ctx.oblige("C01.a", ok, c, f"{name} writes non-ASCII characters literally (ensure_ascii=False): no surrogate-pair escapes the yaml loader would reject" if ok else f"{name} calls json.dumps with ensure_ascii on: a string with a character outside the BMP is written as a surrogate-pair escape that the yaml loader cannot read back", fn=fn)
+
+    # ---------------- C01.f: the caller's dump options reach nested serialisation ----
+    dca = ctx.func("_core:ArgumentParser._dump_cleanup_actions")
+    sers = [c for c in calls_in(dca) if call_leaf(c) == "serialize" and root_name(c.func) == "action"]
+    ctx.floor("C01.f-serialize-sites", len(sers), 2)
+    for c in sers:
+        k = get_kwarg(c, "dump_kwargs") or (c.args[1] if len(c.args) > 1 else None)
+        ok = k is not None and root_name(k) == "dump_kwargs"
+        ctx.oblige("C01.f", ok, c, "the per-action serialiser receives the caller's dump options (skip_none ...)" if ok else "action.serialize is called without the caller's dump options: nested values are dumped with the inner defaults (nested nulls dropped although nulls are kept)", fn=dca)
+    ser = ctx.func("_typehints:ActionTypeHint.serialize")
+    ok = any(isinstance(it.context_expr, ast.Call) and call_leaf(it.context_expr) == "dump_kwargs_context" and it.context_expr.args and root_name(it.context_expr.args[0]) == "dump_kwargs" for w in walk_local(ser) if isinstance(w, ast.With) for it in w.items)
+    ctx.oblige("C01.f", ok, ser, "ActionTypeHint.serialize publishes the dump options for nested parsers (dump_kwargs_context(dump_kwargs))" if ok else "ActionTypeHint.serialize no longer publishes the dump options it was given", fn=ser)
+    n_nd = 0
+    for ref in ("_typehints:adapt_typehints", "_typehints:adapt_class_type"):
+        fn = ctx.func(ref)
+        for c in calls_in(fn):
+            if call_leaf(c) == "dump" and root_name(c.func) == "parser":
+                n_nd += 1
+                ok = any(k.arg is None and "dump_kwargs.get()" in ast.unparse(k.value) for k in c.keywords)
+                ctx.oblige("C01.f", ok, c, "nested parser.dump uses the published dump options" if ok else "nested parser.dump ignores the caller's dump options", fn=fn)
+    ctx.floor("C01.f-nested-dumps", n_nd, 2)
+
     # ---------------- C01.d ---------------------------------------------------
     pcall = ctx.func("_actions:_ActionPrintConfig.__call__")
     dicts = {root_name(s.targets[0]): s.value for s in walk_local(pcall) if isinstance(s, ast.Assign) and isinstance(s.value, ast.Dict) and isinstance(s.targets[0], ast.Name)}
